@@ -1,5 +1,60 @@
-(* placeholder until the refinement proofs land: statements are added with their proofs *)
-From GM Require Import Base.Topic Model.SubTrie Model.SubSpec Proofs.TopicP.
-Theorem C11_split_join : forall s : str, join (split s) = s.
-Proof. exact join_split. Qed.
-Print Assumptions C11_split_join.
+(* C11 - shared subscriptions (store level): the members of every (group, filter) are
+   exactly what the flat map says, and leaving changes only the leaver's own entries. *)
+From Coq Require Import List NArith.
+Import ListNotations.
+From GM Require Import Base.Topic Model.SubTrie Model.SubSpec Proofs.SubTrieP.
+
+(* a publish on topic t finds, for every share group, exactly the current members whose
+   filter matches, each once: this is the candidate list flush() picks one member from *)
+Theorem C11_members_by_topic :
+  forall (ops : list op) (t : str) (c : cid),
+    wf_ops ops = true -> t <> [] -> no_wild_levels (split t) = true ->
+    exists l, db_iterate (q_sh_topic t c) (db_run ops) = IOk (some_ents l) /\ NoDup l /\
+      forall c' s, In (c', s) l <->
+        (s_share s <> [] /\ sp_get (c', s_share s, s_filter s) (spec_run ops) = Some s /\
+         lm (split t) (split (s_filter s)) = true /\ want_client c c').
+Proof. exact sh_lookup_topic_exact. Qed.
+Print Assumptions C11_members_by_topic.
+
+Theorem C11_members_by_name :
+  forall (ops : list op) (g f : str) (c : cid),
+    wf_ops ops = true -> g <> [] -> no_slash g = true -> f <> [] ->
+    exists l, db_iterate (q_sh_name (SHARE_PREFIX ++ g ++ SLASH :: f) c) (db_run ops) = IOk (some_ents l) /\ NoDup l /\
+      forall c' s, In (c', s) l <-> (sp_get (c', g, f) (spec_run ops) = Some s /\ want_client c c').
+Proof. exact sh_lookup_name_exact. Qed.
+Print Assumptions C11_members_by_name.
+
+Theorem C11_memberships_of_client :
+  forall (ops : list op) (c : cid),
+    wf_ops ops = true -> c <> [] ->
+    exists l, db_iterate (q_sh_client c) (db_run ops) = IOk (some_ents l) /\ NoDup l /\
+      forall c' s, In (c', s) l <-> (c' = c /\ s_share s <> [] /\ sp_get (c, s_share s, s_filter s) (spec_run ops) = Some s).
+Proof. exact sh_lookup_client_exact. Qed.
+Print Assumptions C11_memberships_of_client.
+
+(* leaving (session end, clean take-over, expiry all call UnsubscribeAll; UNSUBSCRIBE calls
+   Unsubscribe) affects neither other members nor other groups, and removes the leaver;
+   together with the three theorems above (which hold after ANY history) the store's
+   answers change only at the leaver's keys *)
+Theorem C11_leave_isolated :
+  forall (sp : spec) (c : cid),
+    (forall c' g f, c' <> c -> sp_get (c', g, f) (spec_step sp (OUnsubAll c)) = sp_get (c', g, f) sp) /\
+    (forall g f, sp_get (c, g, f) (spec_step sp (OUnsubAll c)) = None).
+Proof. exact leave_frame. Qed.
+Print Assumptions C11_leave_isolated.
+
+Theorem C11_unsubscribe_isolated :
+  forall (sp : spec) (c : cid) (topic : str) (k : skey),
+    k <> (c, fst (split_topic topic), snd (split_topic topic)) ->
+    sp_get k (spec_step sp (OUnsub c topic)) = sp_get k sp.
+Proof. exact unsub_frame. Qed.
+Print Assumptions C11_unsubscribe_isolated.
+
+Definition mk_sh (g f : str) (q : N) : sub :=
+  {| s_share := g; s_filter := f; s_id := 0; s_qos := q; s_nl := false; s_rap := false; s_rh := 0 |}.
+Example C11_nonvacuous :
+  let c1 := [99; 49]%N in let c2 := [99; 50]%N in let g := [103]%N in let f := [97]%N in
+  let ops := [OSub c1 (mk_sh g f 1); OSub c2 (mk_sh g f 2); OSub c1 (mk_sh [104]%N f 0); OUnsubAll c1] in
+  wf_ops ops = true /\
+  db_iterate (q_sh_topic f []) (db_run ops) = IOk (some_ents [(c2, mk_sh g f 2)]).
+Proof. vm_compute. split; reflexivity. Qed.
